@@ -83,6 +83,22 @@ def _same_transaction_relation(o):
     return False
 
 
+def _one_transaction_runs_both(o, t, a, b):
+    """can transaction t, running alone, have body a and body b running in the same cycle (spec-level semantics)?"""
+    import z3 as _z3
+
+    def paths_to(x):
+        if x == t:
+            return [()]
+        return [p for p in o.call_paths(t) if p[-1].target == x]
+
+    for pa in paths_to(a):
+        for pb in paths_to(b):
+            if o._sat(_z3.And(*[ev(s_.cond, o.hw) for s_ in pa + pb])) if (pa + pb) else True:
+                return True
+    return False
+
+
 def spec_of(cfg):
     name = cfg["design"]
     if name.startswith("random:"):
@@ -166,8 +182,10 @@ def obligations(pid, ctx, b, o, curated=True):
                     for y in tb:
                         if x != y:
                             P(f"conflict({rel[1]},{rel[2]},{rel[3]}).callers_{x}_{y}_never_both_run", z3.Not(z3.And(b.run(x), b.run(y))))
-                # (ii) the related objects themselves never both run
-                tag = "[shared_caller]" if shared else ""
+                # (ii) the related objects themselves never both run.  The known finding (one transaction that can itself
+                # activate both ends) is tagged only when such a transaction exists: a shared caller whose calls of the two
+                # ends sit in different alternatives of one control structure can never run both by itself.
+                tag = "[shared_caller]" if any(_one_transaction_runs_both(o, t, a, bb) for t in shared) else ""
                 P(f"conflict({rel[1]},{rel[2]},{rel[3]}).never_both_run{tag}", z3.Not(z3.And(relobj_run(b, rel[1]), relobj_run(b, rel[2]))))
                 n += 1
         if n == 0:
